@@ -160,8 +160,50 @@ def m_rename_use(tree, rng):
         return None
     n = rng.choice(uses)
     others = sorted({x.id for x in _names(fn, ast.Store)} | {a.arg for a in fn.args.args})
-    n.id = rng.choice(others) if others and rng.random() < 0.6 else "zz_undefined"
+    r_ = rng.random()
+    if others and r_ < 0.55:
+        n.id = rng.choice(others)
+    elif r_ < 0.8:
+        n.id = "zz_undefined"
+    else:
+        # names Python's `builtins` module knows but Guppy does not define
+        n.id = rng.choice(PY_ONLY_BUILTINS)
     return "rename_use"
+
+
+PY_ONLY_BUILTINS = ["ValueError", "KeyError", "StopIteration", "NotImplemented", "Ellipsis", "ascii", "quit",
+                    "open", "input", "object", "type", "id", "hash", "iter", "next", "sorted", "map", "__name__",
+                    "Exception", "memoryview", "globals", "vars"]
+
+
+def m_python_builtin(tree, rng):
+    """A Python-only builtin used as a value, called, or written as an annotation."""
+    fn = rng.choice(guppy_funcs(tree))
+    b = rng.choice(_all_stmt_lists(fn))
+    nm = rng.choice(PY_ONLY_BUILTINS)
+    src = rng.choice([f"zz_v = {nm}", f"zz_v = {nm}(1)", f"zz_v: {nm} = 1", f"zz_v = {nm}.x",
+                      f"def zz_in(a: {nm}) -> int:\n    return 1", f"zz_v = (1, {nm})", f"{nm}"])
+    b[rng.randint(0, len(b)):0] = ast.parse(src).body
+    return "python_builtin"
+
+
+def m_comprehension_scope(tree, rng):
+    """Comprehension targets are local to the comprehension: uses after it (same block, later
+    block, another comprehension), shadowing of an outer variable, nested generators."""
+    fn = rng.choice(guppy_funcs(tree))
+    b = rng.choice(_all_stmt_lists(fn))
+    outer = sorted({x.id for x in _names(fn, ast.Store)})
+    v = rng.choice(["zz_c"] + outer[:3])
+    src = rng.choice([
+        f"zz_ys = array({v} + 1 for {v} in range(3))\nzz_w = {v}",
+        f"zz_ys = array({v} for {v} in range(3))\nzz_zs = array({v} for zz_d in range(2))",
+        f"zz_ys = array({v} * zz_d for {v} in range(2) for zz_d in range(2))\nzz_w = zz_d",
+        f"zz_ys = array({v} for {v} in range(3))\nif zz_ys[0] == 0:\n    zz_w = {v}",
+        f"zz_ys = array(zz_q for {v} in range(3))",
+        f"zz_ys = array({v} for {v} in range(3) if {v} > zz_q)",
+    ])
+    b[rng.randint(0, len(b)):0] = ast.parse(src).body
+    return "comprehension_scope"
 
 
 def m_arity(tree, rng):
@@ -282,7 +324,7 @@ def m_nested_capture(tree, rng):
 MUTATORS = [m_wrong_const, m_wrong_const, m_delete_assign, m_delete_assign, m_rename_use,
             m_rename_use, m_arity, m_unsupported, m_unsupported, m_unsupported, m_annotation,
             m_swap_operands_types, m_swap_operands_types, m_change_op, m_jump, m_generic_misuse,
-            m_nested_capture]
+            m_nested_capture, m_python_builtin, m_python_builtin, m_comprehension_scope, m_comprehension_scope]
 
 
 def mutate_text(text: str, rng: random.Random, n: int = 1, non_ascii: bool = False):
